@@ -21,6 +21,7 @@ ap.add_argument("props", nargs="*")
 ap.add_argument("--tier", default="quick")
 ap.add_argument("--suite", action="store_true")
 ap.add_argument("--shards", default="8")
+ap.add_argument("--budget-s", default=None)
 a = ap.parse_args()
 seed = os.path.abspath(a.seed_dir)
 name = os.path.basename(seed.rstrip("/"))
@@ -74,7 +75,7 @@ try:
             out["suite_new_failures"] = [f for f in fails if not any(a in f for a in ALWAYS)][:12]
         for prop in a.props:
             env = dict(os.environ, VERIF_GLUE_PATH=wt)
-            r = run(["./check", prop, "--tier", a.tier, "--shards", a.shards], cwd="/verif", env=env, timeout=7200)
+            r = run(["./check", prop, "--tier", a.tier, "--shards", a.shards] + (["--budget-s", a.budget_s] if a.budget_s else []), cwd="/verif", env=env, timeout=7200)
             sigs = re.findall(r"^VIOLATION .*?signature=(\{.*?\}) count", r.stdout, re.M)
             out[prop] = {"rc": r.returncode, "violations": sigs[:6], "n": len(sigs), "last": r.stdout.strip().splitlines()[-1:]}
 finally:
